@@ -47,6 +47,14 @@ Definition builtin_registry : registry :=
     ("_eino_uintptr", TBase BUintptr); ("_eino_bool", TBase BBool); ("_eino_string", TBase BString);
     ("_eino_any", TAny) ]%string.
 
+(* monadic map, written with the function outside the fixpoint so that it can be used
+   for nested recursion with an arbitrary lambda *)
+Definition mapM {A B} (f : A -> res B) : list A -> res (list B) :=
+  fix go l := match l with
+              | [] => Ok []
+              | a :: r => do b <- f a; do bs <- go r; Ok (b :: bs)
+              end.
+
 Section Ser.
   Variables J JK : Type.                       (* JSON text of a basic value / of a map key *)
   Variable jenc : base -> lit -> res J.        (* json.Marshal on a value of basic kind *)
@@ -87,7 +95,7 @@ Section Ser.
 
   (* internalMarshal.  [pn] = pointers dereferenced so far (ret.PointerNum).
      Result None = the Go function returned (nil, nil): a nil interface. *)
-  Fixpoint enc_at (pn : nat) (v : val) : res (option istruct) :=
+  Fixpoint enc_at (pn : nat) (v : val) {struct v} : res (option istruct) :=
     match v with
     | VIface _ o =>
         match pn with
@@ -102,17 +110,23 @@ Section Ser.
     | VPtr w => enc_at (S pn) w
     | VStruct n fs =>
         do key <- lookup_name (TStruct n);
-        do fields <- res_mapM (fun fv => do i <- enc_at 0 (snd fv); Ok (fst fv, i)) fs;
+        do fields <- mapM (fun fv => do i <- enc_at 0 (snd fv); Ok (fst fv, i)) fs;
         Ok (Some (IStruct pn key fields))
     | VMap k t o =>
         do kk <- elem_key k;
         do vk <- elem_key t;
-        do entries <- res_mapM (fun kv => do i <- enc_at 0 (snd kv);
-                                          do jk <- enc_key (fst kv); Ok (jk, i)) (opt_list o);
+        do entries <- match o with
+                      | None => Ok []
+                      | Some kvs => mapM (fun kv => do i <- enc_at 0 (snd kv);
+                                                    do jk <- enc_key (fst kv); Ok (jk, i)) kvs
+                      end;
         Ok (Some (IMap pn (fst kk) (snd kk) (fst vk) (snd vk) entries))
     | VSlice t o =>
         do ek <- elem_key t;
-        do elems <- res_mapM (enc_at 0) (opt_list o);
+        do elems <- match o with
+                    | None => Ok []
+                    | Some es => mapM (enc_at 0) es
+                    end;
         Ok (Some (ISlice pn (fst ek) (snd ek) elems))
     | VBase b l =>
         do key <- lookup_name (TBase b);
@@ -155,7 +169,7 @@ Section Ser.
      name (zero value if none / nil) *)
   Definition build_fields (ds : list (string * ty)) (decoded : list (string * option val))
     : res (list (string * val)) :=
-    res_mapM (fun d =>
+    mapM (fun d =>
                 do v <- place (snd d) (match alist_get (fst d) decoded with
                                        | Some o => o | None => None end);
                 Ok (fst d, v)) ds.
@@ -184,7 +198,7 @@ Section Ser.
             match struct_fields env n with
             | None => Err E_NOSTRUCT
             | Some ds =>
-                do decoded <- res_mapM (fun fi =>
+                do decoded <- mapM (fun fi =>
                                 match snd fi with
                                 | None => Ok (fst fi, None)
                                 | Some i' => do v <- dec i'; Ok (fst fi, Some v)
@@ -203,7 +217,7 @@ Section Ser.
         do vt0 <- lookup_ty vname;
         let kt := add_ptr kpn kt0 in
         let vt := add_ptr vpn vt0 in
-        do kvs <- res_mapM (fun e =>
+        do kvs <- mapM (fun e =>
                      do k <- dec_key kt (fst e);
                      do o <- match snd e with
                              | None => Ok None
@@ -215,7 +229,7 @@ Section Ser.
     | ISlice pn epn ename elems =>
         do et0 <- lookup_ty ename;
         let et := add_ptr epn et0 in
-        do es <- res_mapM (fun e =>
+        do es <- mapM (fun e =>
                     do o <- match e with
                             | None => Ok None
                             | Some i' => do v <- dec i'; Ok (Some v)
